@@ -1700,7 +1700,11 @@ if __name__ == "__main__":
             "py2lean_c04.py (Python // and % ↦ Int.fdiv/Int.fmod) for find_padding_for_stride: pad_minimal is about the generated definition",
             "content maps of torchvision resize ((x+½)·n'/n − ½), F.pad (identity), kornia crop_and_resize (x − tl) and kornia RandomAffine "
             "(S·A·S⁻¹, keypoints A): assumed by the model, measured on every run with marker images to 0.15 px",
-            "blob-centroid measurement (windowed, thresholded) as the observation of 'where the image content is'",
+            "blob-centroid measurement (windowed, thresholded) as the observation of 'where the image content is'; WHETHER a blob is measured "
+            "(start guess, window radius, border / neighbour / knife skips) is driven by the model's content point — a model/implementation "
+            "divergence shows up as a disagreement instead",
+            "recorded from the implementation and fed to the model: kornia's transform matrix and RandomAffine's align_corners flag (selects "
+            "the model's aug / auga step); the over-crop size is NOT recorded — it comes from the driver (`oc`, Geometry.overcropSize)",
             "float32/float64 evaluation of the coordinate arithmetic stays within 2e-3 px of the exact rationals (measured)",
             "harness shims: kornia.core.Tensor alias, recording subclass of AugmentationSequential, in-memory sio.Video backend",
         ],
@@ -1713,8 +1717,10 @@ if __name__ == "__main__":
             "keypoints are compared at pixel centres inside the image; blobs nearer than 3σ+1.5 px to the output border are not measured (counted)",
             "model-predicted offsets within 0.15 px of the 1-px bound are knife-edges (skipped, counted)",
             "the warp inside kornia's RandomAffine is an external parameter: its matrix is recorded, its content map S·A·S⁻¹ is measured, not proved",
-            "CentroidDataset leaves sample['instances'] un-augmented and CenteredInstanceDataset re-crops about the un-augmented centroid: "
-            "only the keys each class trains on (centroids / instance) are checked for registration",
+            "labels without any instance are outside the quantifier: find_instance_crop_size then ignores min_crop_size (generated, compared "
+            "with the model, Props cropsize_empty*), not flagged",
+            "legacy SizeMatcher datapipe (pad only), Normalizer and the litdata chunk functions are not exercised; RandomMixUpV2 only with a "
+            "batch of one (identity)",
         ],
     )
     run_check(chk, main, replay)
